@@ -125,6 +125,8 @@ def _cross_process(ctx):
         outs = []
         for role, seed in (("produce", "11"), ("consume", "22"), ("lateimport", "33")):
             e = dict(os.environ, PYTHONHASHSEED=seed)
+            if role == "consume":
+                e["PYTHONOPTIMIZE"] = "1"  # the consumer runs as `python -O`: assert statements are not executed
             r = subprocess.run([env.PYTHON, "-m", "harness.lib.c07_xproc", role, path], cwd=env.VERIF, env=e, stdout=subprocess.PIPE, stderr=subprocess.PIPE, text=True, timeout=600)
             outs.append(r)
             if r.returncode != 0:
@@ -291,6 +293,18 @@ def tie(ctx):
         fd = _first_diff(batch, single)
         if fd is not None:
             divs.append(Divergence("corr.tables", {"table": "encode_moves_batch", "size": n, "index": fd[0]}, fd[1], fd[2]))
+        # the same moves handed over as other iterables (the function takes "moves": a tuple, a
+        # generator, a map object, an iterator are moves too)
+        for kind, mk in (("tuple", tuple), ("generator", lambda l: (m for m in l)), ("map", lambda l: map(lambda m: m, l)), ("iterator", iter)):
+            ctx.evaluated(len(have))
+            ctx.count("batch-encode:" + kind)
+            try:
+                other = [str(int(v)) for v in encoding.encode_moves_batch(n, mk(have)).tolist()] if len(have) else []
+            except Exception as e:
+                other = ["crash " + type(e).__name__]
+            fd = _first_diff(other, single)
+            if fd is not None:
+                divs.append(Divergence("corr.tables", {"table": "encode_moves_batch(%s)" % kind, "size": n, "index": fd[0]}, fd[1], fd[2]))
     enc_out = driver.run_lines(enc_lines)
     for (n, cands, ids), o in zip(enc_meta, enc_out):
         model_ids = o.split(",") if cands else []
